@@ -18,4 +18,8 @@ regen e9c2403 C07 400 C07-readonly-gets-foreign-share.json C07.readonly-gets-new
 regen 867d381 C07 3000 C07-writable-peer-dropped.json C07.not-maximal
 regen 732d0ab C46 400 C46-active-segment-not-cleared.json C46.read-hung
 regen 025e36c C46 600 C46-truncated-header-livelock.json C46.livelock
+regen 7875a27 C45 400 C45-forged-block-tree.json C45.bad-share-reported-good
+regen d9e7927 C45 400 C45-truncated-share-assertion.json C45.check-failed
+regen 52bf84d C09 300 C09-stale-size-truncates.json C09.contents
+regen a952943 C09 300 C09-append-at-segment-boundary.json C09.faultfree-write-failed
 rm -rf $S
